@@ -3,12 +3,14 @@ package c14
 
 import (
 	"bytes"
+	"context"
 	"crypto/sha256"
 	"encoding/binary"
 	"fmt"
 	"hash/adler32"
 	"math"
 	"runtime"
+	"strings"
 	"sync"
 	"sync/atomic"
 	"testing"
@@ -173,6 +175,29 @@ func TestConcurrentPresentations(t *testing.T) {
 					concurrentDup = true
 				}
 			}
+			// extra messages for publisher batches: unique keys (must all pass) and a duplicate of the goroutine's own message
+			extras := make([][]*message.Message, ng)
+			if viaPublisher {
+				for g := 0; g < ng; g++ {
+					n := rapid.IntRange(0, 2).Draw(t, "extraInBatch")
+					for k := 0; k < n; k++ {
+						if rapid.Bool().Draw(t, "extraIsDuplicateOfOwn") {
+							ex := message.NewMessage(fmt.Sprintf("dup-g%d-%d", g, k), append([]byte(nil), msgs[g].Payload...))
+							for mk, mv := range msgs[g].Metadata {
+								ex.Metadata[mk] = mv
+							}
+							extras[g] = append(extras[g], ex)
+						} else {
+							id := fmt.Sprintf("uniq-r%d-g%d-%d", r, g, k)
+							ex := message.NewMessage(id, []byte(rprefix+"unique-extra-"+id))
+							if hs.Kind == "meta" {
+								ex.Metadata["dedup-key"] = rprefix + "unique-extra-" + id
+							}
+							extras[g] = append(extras[g], ex)
+						}
+					}
+				}
+			}
 			var mu sync.Mutex
 			passed := map[int]bool{} // goroutine index whose message reached the handler / inner publisher
 			results := make([]string, ng)
@@ -203,7 +228,16 @@ func TestConcurrentPresentations(t *testing.T) {
 					defer wg.Done()
 					<-start
 					if viaPublisher {
-						if err := pub.Publish("topic", msgs[g]); err != nil {
+						// batches: the goroutine's own message travels with other messages of the same call
+						batch := []*message.Message{msgs[g]}
+						for k, ex := range extras[g] {
+							if k%2 == 0 {
+								batch = append([]*message.Message{ex}, batch...)
+							} else {
+								batch = append(batch, ex)
+							}
+						}
+						if err := pub.Publish("topic", batch...); err != nil {
 							results[g] = "error: " + err.Error()
 						}
 						return
@@ -223,12 +257,32 @@ func TestConcurrentPresentations(t *testing.T) {
 			}
 			close(start)
 			wg.Wait()
+			// every presented message (own + batch extras) belongs to a key class computed by the reference hash;
+			// unique-looking extras may collide under Adler-32 as well, so they are classified the same way
+			extraPassed := map[string]bool{}
 			if viaPublisher {
 				for _, pc := range inner.Calls() {
 					for _, m := range pc.Msgs {
+						if strings.HasPrefix(m.UUID, "uniq-") || strings.HasPrefix(m.UUID, "dup-g") {
+							if extraPassed[m.UUID] {
+								t.Fatalf("violation: message %s reached the wrapped publisher twice", m.UUID)
+							}
+							extraPassed[m.UUID] = true
+							continue
+						}
 						var g int
 						fmt.Sscanf(m.UUID, "g%d", &g)
 						passed[g] = true
+					}
+				}
+			}
+			extraByClass := map[string][]*message.Message{}
+			for g := range extras {
+				for _, ex := range extras[g] {
+					k := hs.refKey(ex)
+					extraByClass[k] = append(extraByClass[k], ex)
+					if _, ok := classes[k]; !ok {
+						classes[k] = nil
 					}
 				}
 			}
@@ -249,6 +303,13 @@ func TestConcurrentPresentations(t *testing.T) {
 						}
 					} else if results[g] != "dropped" {
 						t.Fatalf("violation: duplicate not dropped as success: %s", results[g])
+					}
+				}
+				for _, ex := range extraByClass[k] {
+					if extraPassed[ex.UUID] {
+						n++
+					} else if a, _ := lib.Settled(ex); !a {
+						t.Fatalf("violation: duplicate dropped by the publisher decorator was not acked")
 					}
 				}
 				if n != 1 {
@@ -339,6 +400,11 @@ func TestRetentionWindow(t *testing.T) {
 		d := &middleware.Deduplicator{KeyFactory: middleware.NewMessageHasherSHA256(math.MaxInt64), Repository: repo, Timeout: time.Second}
 		calls := 0
 		h := d.Middleware(func(m *message.Message) ([]*message.Message, error) { calls++; return nil, nil })
+		// many other live keys: the clean-up cycle then takes a while; the key must stay remembered during it
+		ballast := rapid.SampledFrom([]int{0, 0, 1000, 50000, 200000}).Draw(t, "otherLiveKeys")
+		for i := 0; i < ballast; i++ {
+			repo.IsDuplicate(context.Background(), fmt.Sprintf("ballast-%d", i))
+		}
 		// random phase relative to the clean-up ticker
 		time.Sleep(time.Duration(rapid.IntRange(0, windowMs).Draw(t, "phaseMs")) * time.Millisecond)
 		payload := []byte(fmt.Sprintf("retention-%d", expiryCases.Load()))
